@@ -64,10 +64,11 @@ def is_kind_to_label(ctx):
 
 
 def is_label_to_kind(ctx):
-    kinds = set(record_kinds(ctx))
+    formal = set(all_formal(ctx))
 
     def pred(d):
-        return len(d) > 0 and all(isinstance(k, str) for k in d) and all(isinstance(v, QN) for v in d.values()) and len(kinds & set(d.values())) >= 3
+        # a str -> QualifiedName table that is not the formal-attribute key table
+        return len(d) > 3 and all(isinstance(k, str) for k in d) and all(isinstance(v, QN) for v in d.values()) and not (formal & set(d.values()))
 
     return pred
 
@@ -513,6 +514,34 @@ def unroll_for(ctx: Ctx, qual, loop: ast.For, pre_env):
     return env
 
 
+def written_default_namespaces(ctx: Ctx):
+    """prefix -> URI the XML writer declares for the library's default namespaces (loop over DEFAULT_NAMESPACES unrolled)."""
+    wq = XM + ".ProvXMLSerializer.serialize_bundle"
+    wf = ctx.fn(wq)
+    written = {}
+    for n in walk_function(wf.node):
+        if isinstance(n, ast.For):
+            stores = [s for s in ast.walk(n) if isinstance(s, ast.Subscript) and isinstance(s.ctx, ast.Store) and isinstance(s.value, ast.Name)]
+            if not stores:
+                continue
+            try:
+                it = ctx.eval_in(wq, n.iter)
+            except AnalysisError:
+                continue
+            if is_unknown(it) or ctx.f._iterate(it) is None:
+                continue
+            name = stores[0].value.id
+            try:
+                env = unroll_for(ctx, wq, n, dict(ctx.fenv(wq), **{name: {}}))
+            except AnalysisError:
+                env = None
+            if env and isinstance(env.get(name), dict):
+                written.update({k: v for k, v in env[name].items() if isinstance(v, str)})
+    if not written:
+        raise AnalysisError("cannot fold the default-namespace declarations written by serialize_bundle")
+    return written
+
+
 @rule("C02", "C02.R6", "the XSD namespace special case: the URI the writer declares is the one the reader recognises", 2,
       decides="xsi:type='xsd:...' values are resolved back into the library's xsd namespace")
 def c02_r6(ctx: Ctx, rule):
@@ -521,8 +550,8 @@ def c02_r6(ctx: Ctx, rule):
     prov = ctx.prov_ns()
     wq = XM + ".ProvXMLSerializer.serialize_bundle"
     wf = ctx.fn(wq)
-    written = {}
-    for n in walk_function(wf.node):
+    written = written_default_namespaces(ctx)
+    for n in []:
         if isinstance(n, ast.For):
             stores = [s for s in ast.walk(n) if isinstance(s, ast.Subscript) and isinstance(s.ctx, ast.Store) and isinstance(s.value, ast.Name)]
             if not stores:
@@ -943,6 +972,12 @@ def c10_r2(ctx: Ctx, rule):
         res.ob("DEFAULT_NAMESPACES[%r] = %s" % (pfx, getattr(got, "uri", got)))
         if not isinstance(got, NS) or got.uri != sd["namespaces"][key]:
             res.fail(rule.id, "xml-spec::namespace::%s" % pfx, ctx.loc(M, ctx.p.units[M].tree), "namespace %s is %s; specification: %s" % (pfx, getattr(got, "uri", got), sd["namespaces"][key]))
+    written = written_default_namespaces(ctx)
+    got_xsd = written.get("xsd")
+    res.ob("XML documents declare xsd as %r; PROV-XML uses %r" % (got_xsd, sd["namespaces"]["xsd_xml_form"]))
+    if got_xsd != sd["namespaces"]["xsd_xml_form"]:
+        res.fail(rule.id, "xml-spec::namespace::xsd-form", ctx.loc(XM, ctx.p.units[XM].tree), "the xsd prefix is declared as %r in PROV-XML output; the schema namespace is %r" % (got_xsd, sd["namespaces"]["xsd_xml_form"]),
+                 "a schema-aware reader does not recognise xsi:type='xsd:int' (the library's own reader accepts both spellings)")
     nsx = ctx.fn(XM + "._ns_xml")
     xml_ns = [s for s in const_strings(nsx.node) if s.startswith("http")]
     res.ob("xml namespace = %s" % xml_ns)
